@@ -1060,16 +1060,17 @@ func TestVerifC26(t *testing.T) {
 			{name: "n=4, all 7 sizes x {A,B,X6}, v4 socket, bound 2", ns: []int{4}, sizes: allSizes, dests: []int8{0, 1, 3}, bound: 2, cfgs: cfgV4},
 		}
 	} else {
+		// cheap and diverse families first: a run cut short by the time budget still covers every batch shape
 		fams = []c26Family{
 			{name: "n<=3, all 7 sizes x {A,B,C,X6,Amapped}, all 24 configs, unbounded answers", ns: []int{1, 2, 3}, sizes: allSizes, dests: []int8{0, 1, 2, 3, 4}, bound: -1, cfgs: cfgAll},
 			{name: "n<=3 errno with count 0", ns: []int{1, 2, 3}, sizes: allSizes, dests: []int8{0, 1, 3}, bound: 3, cfgs: cfgErr0},
-			{name: "n=4, all 7 sizes x {A,B,C,X6}, all 24 configs", ns: []int{4}, sizes: allSizes, dests: []int8{0, 1, 2, 3}, bound: 3, cfgs: cfgAll},
-			{name: "n=4, all 7 sizes x {A,B,X6}, v4 socket, unbounded answers", ns: []int{4}, sizes: allSizes, dests: []int8{0, 1, 3}, bound: -1, cfgs: cfgV4},
-			{name: "n=4, sizes {0,99,100,101} x {A,B,C,X6}, v4 socket, unbounded answers", ns: []int{4}, sizes: small, dests: []int8{0, 1, 2, 3}, bound: -1, cfgs: cfgV4},
-			{name: "n=5, sizes {0,99,100,101} x {A,B,X6}, all 24 configs", ns: []int{5}, sizes: small, dests: []int8{0, 1, 3}, bound: 3, cfgs: cfgAll},
-			{name: "n=5, all 7 sizes x {A,X6}, v4 socket", ns: []int{5}, sizes: allSizes, dests: []int8{0, 3}, bound: 3, cfgs: cfgV4},
 			{name: "n=6..7, sizes {99,100} x {A,X6}, v4 socket", ns: []int{6, 7}, sizes: []int8{1, 2}, dests: []int8{0, 3}, bound: 3, cfgs: cfgV4},
 			{name: "n=6, sizes {0,100,101} x {A,C}, v4 socket", ns: []int{6}, sizes: []int8{0, 2, 3}, dests: []int8{0, 2}, bound: 3, cfgs: cfgCore},
+			{name: "n=4, sizes {0,99,100,101} x {A,B,C,X6}, v4 socket, unbounded answers", ns: []int{4}, sizes: small, dests: []int8{0, 1, 2, 3}, bound: -1, cfgs: cfgV4},
+			{name: "n=5, sizes {0,99,100,101} x {A,B,X6}, all 24 configs", ns: []int{5}, sizes: small, dests: []int8{0, 1, 3}, bound: 3, cfgs: cfgAll},
+			{name: "n=4, all 7 sizes x {A,B,C,X6}, all 24 configs", ns: []int{4}, sizes: allSizes, dests: []int8{0, 1, 2, 3}, bound: 3, cfgs: cfgAll},
+			{name: "n=4, all 7 sizes x {A,B,X6}, v4 socket, unbounded answers", ns: []int{4}, sizes: allSizes, dests: []int8{0, 1, 3}, bound: -1, cfgs: cfgV4},
+			{name: "n=5, all 7 sizes x {A,X6}, v4 socket", ns: []int{5}, sizes: allSizes, dests: []int8{0, 3}, bound: 3, cfgs: cfgV4},
 		}
 	}
 
